@@ -273,54 +273,57 @@ func c15StartClose(p *load.Program, r *oblig.Report) {
 			wait = ins
 		}
 	})
+	// the test on the number of running functions, read under the lock, in whichever spelling (r > 0, 0 < r,
+	// r <= 0 with the branches swapped, r != 0): `pos` is the successor taken when some function is still running
 	okWait := false
-	if wait != nil {
-		for _, pred := range wait.Block().Preds {
-			_, ci := an.IfCond(pred)
-			if ci != nil && ci.Op == token.GTR && pred.Succs[0] == wait.Block() {
-				if k, isK := an.ConstInt(ci.Y); isK && k == 0 && strings.HasSuffix(argDesc(ci.X), ".routines") {
-					// the value compared was read under the lock
-					if ld, isLd := ci.X.(*ssa.UnOp); isLd && l.Before[ld].Holds("Generation.lock", false) {
-						okWait = true
-					}
-				}
-			}
+	var test *ssa.BasicBlock
+	var pos, zero *ssa.BasicBlock
+	for _, b := range an.Blocks(cl) {
+		_, ci := an.IfCond(b)
+		if ci == nil {
+			continue
+		}
+		x, y, op := ci.X, ci.Y, ci.Op
+		if _, isK := an.ConstInt(x); isK {
+			x, y, op = y, x, flipOp(op)
+		}
+		k, isK := an.ConstInt(y)
+		if !isK || k != 0 || !strings.HasSuffix(argDesc(x), ".routines") {
+			continue
+		}
+		ld, isLd := x.(*ssa.UnOp)
+		if !isLd || !l.Before[ld].Holds("Generation.lock", false) {
+			continue
+		}
+		t, f := b.Succs[0], b.Succs[1]
+		if ci.Neg {
+			t, f = f, t
+		}
+		switch op {
+		case token.GTR, token.NEQ:
+			test, pos, zero = b, t, f
+		case token.LEQ, token.EQL:
+			test, pos, zero = b, f, t
 		}
 	}
-	dbg := "not recognised"
-	if wait != nil {
-		for _, pred := range wait.Block().Preds {
-			if _, ci := an.IfCond(pred); ci != nil {
-				dbg += fmt.Sprintf(" [test %s %s %s; %T; lockset %s]", argDesc(ci.X), ci.Op, argDesc(ci.Y), ci.X, func() string {
-					if ld, ok := ci.X.(*ssa.UnOp); ok {
-						return l.Before[ld].String()
-					}
-					return "-"
-				}())
-			}
+	dbg := "no test of g.routines (read under the lock) against 0"
+	if test != nil && wait != nil {
+		// with a function still running, every path to an exit receives from g.joined
+		ok1, miss := an.MustPass(cl, an.Point{B: pos, Idx: -1}, func(i ssa.Instruction) bool { return i == wait }, nil)
+		okWait = ok1
+		if !ok1 && miss != nil {
+			dbg = "with functions still running the exit at " + p.Pos(miss.Pos()) + " is reached without waiting"
 		}
 	}
+	_ = zero
 	r.Check(okWait, rule, "Generation.close waits for every started function", p.Pos(cl.Pos()), "r := g.routines (locked); if r > 0 { <-g.joined }", dbg)
-	// close(): no return before the wait decision (no early exit when already closed)
-	nRet := 0
-	an.EachInstr(cl, func(ins ssa.Instruction) {
-		if _, ok := ins.(*ssa.Return); ok {
-			nRet++
-		}
-	})
-	okSingle := nRet == 1
-	if wait != nil {
-		// the only return is after the wait decision: every path from entry passes the `r > 0` test
-		var test *ssa.BasicBlock
-		for _, pred := range wait.Block().Preds {
-			test = pred
-		}
-		if test != nil {
-			ok, _ := an.MustPass(cl, an.EntryPoint(cl), func(i ssa.Instruction) bool { return i.Block() == test }, nil)
-			okSingle = okSingle && ok
-		}
+	// close(): no return before the wait decision (no early exit when already closed): every path from the entry
+	// passes the test of the number of running functions
+	okSingle := false
+	if test != nil {
+		okSingle, _ = an.MustPass(cl, an.EntryPoint(cl), func(i ssa.Instruction) bool { return i.Block() == test }, nil)
 	}
-	r.Check(okSingle, rule, "Generation.close has no exit that skips the wait", p.Pos(cl.Pos()), "single return, after the routines > 0 test", fmt.Sprintf("returns=%d", nRet))
+	r.Check(okSingle, rule, "Generation.close has no exit that skips the wait", p.Pos(cl.Pos()), "every exit comes after the routines > 0 test", "an exit is reachable without the test")
 	// genCtx.Done is g.done
 	gd := p.Func("", "(genCtx).Done")
 	if gd != nil {
